@@ -132,7 +132,8 @@ def run(ctx: Ctx) -> int:
         return common.replay_differential(ctx, eng, ctx.replay)
     common.run_witnesses(ctx, eng)
     opts = common.gen_options(ctx, partial_bias=3.0)
-    judge = common.Judge(ctx, eng, max_shrinks=ctx.pick(2, 6))
+    from .c01 import tolerated   # refusal of a bare collection-valued member as a column: C01's tolerated refusal, not a fault question
+    judge = common.Judge(ctx, eng, tolerated_refusal=tolerated, max_shrinks=ctx.pick(2, 6))
     for backend in sch.BACKENDS:
         s = sch.fixed(backend)
         cases = []
